@@ -77,6 +77,22 @@ def twice_operator(x):
     return Twice()
 
 
+def custom_operator(builder):
+    """A mapper operator written by hand against the public composition API - the documented pattern: the operator keeps
+    ONE builder object and creates a new worker group from it on every composition."""
+    from forml import flow
+
+    class Plain(flow.Operator):
+        def compose(self, scope):
+            left = scope.expand()
+            apply = flow.Worker(builder, 1, 1)
+            train_apply = apply.fork()
+            apply.fork().train(left.train.publisher, left.label.publisher)
+            return left.extend(apply, train_apply)
+
+    return Plain()
+
+
 def _head(segment):
     return segment[0]
 
@@ -94,6 +110,8 @@ def make(e, x=1, tmp=None):
         return make(e['kids'][0], 10 * x + 1, tmp) >> make(e['kids'][1], 10 * x + 2, tmp)
     if op in ('mapper', 'apply', 'train', 'label'):
         return getattr(wrap.Operator, op)(cls)(str(x))
+    if op == 'custom':
+        return custom_operator(cls.builder(str(x)))
     if op in ('lmapper', 'lapply', 'ltrain'):
         label_cls = symbolic.Stateful if e['k'] == 1 else symbolic.Stateless
         combined = getattr(wrap.Operator.label(label_cls, label=str(10 * x + 1)), op[1:])(cls, label=str(x))
